@@ -42,10 +42,14 @@ LoneInit    == [s \in {1} |-> {1, 2}]
 NoLinks     == {}
 LoneOpPorts == {<<1, 1>>, <<1, 2>>}
 \* restrictions of the ENVIRONMENT used by some model-checking configurations (the spec itself is unrestricted)
-Eager     == (\E s \in Sw : chan[s] # <<>>) => last'.a = "Deliver"       \* the channel is drained at once
-OnlyFlap1 == last'.a = "ConnDown" => last'.args.s = 1                   \* only switch 1 ever disconnects
+Eager     == (dpend = {} /\ tphase < P /\ \E s \in conn : chan[s] # <<>>) => last'.a = "Deliver"   \* the channel is drained at once
+OnlyFlap1 == last'.a = "Disconnect" => last'.args.s = 1                 \* only switch 1 ever disconnects
+\* what the replay adapter cannot do: a LinkEvent between Disconnect and ConnDown, or on the timer instant before the timer
+DownAtomic == ((dpend # {}) => last'.a = "ConnDown") /\ ((tphase = P) => last'.a = "Tick")
 EagerFlap1 == Eager /\ OnlyFlap1
-ExportEager      == Eager /\ ExportT
-ExportEagerFlap1 == Eager /\ OnlyFlap1 /\ ExportT
+EagerFlap1Atomic == Eager /\ OnlyFlap1 /\ DownAtomic
+ExportAtomic     == DownAtomic /\ ExportT
+ExportEager      == Eager /\ DownAtomic /\ ExportT
+ExportEagerFlap1 == Eager /\ OnlyFlap1 /\ DownAtomic /\ ExportT
 LoneOpPorts1 == {<<1, 1>>}
 ====
